@@ -17,12 +17,29 @@ FLOATS = [bits(v) for v in (0.0, 1.0, 1.5, 0.1, 100.0, 5e-324, 2.225073858507201
 NEGFLOATS = [bits(v) for v in (-1.0, -0.5, -1e300, float('-inf'), -5e-324)]
 
 
+def f32_widened(x):
+    """the f64 that holds exactly the f32 nearest to x"""
+    return bits(struct.unpack('<f', struct.pack('<f', x))[0])
+
+
+# doubles that are exactly representable in single precision but whose shortest f32 text differs from their shortest f64
+# text (0.1f32, f32::MAX, f32 subnormals), powers of two above 2^24 .. 2^63 and just beyond u64 (integers printed with 9..20
+# digits), and the u64 / i64 / u32 boundaries as floats: anything that prints or parses floats through a narrower type,
+# an integer fast path or a fixed number of digits goes wrong on some of these
+FLOATS += [f32_widened(v) for v in (0.1, 5.0945, 3.4028234663852886e38, 1e-45, 1.17549435e-38, 16777217.0, 0.3, 1e10, 123456.789)]
+FLOATS += [bits(float(2 ** k)) for k in (24, 27, 30, 31, 32, 33, 52, 53, 54, 62, 63, 64, 65, 66)]
+FLOATS += [bits(v) for v in (2.0 ** 53 + 2, 9007199254740993.0, 18446744073709551615.0, 9223372036854775807.0, 4294967295.0, 4294967296.0,
+                             3e19, 5e19, 7e19, 9e19, 9.999999999999999e19, 1e20, 1e22, 1e23, 4.35, 0.1 + 0.2, 1 / 3)]
+
+
 def rand_float_bits(rng, allow_neg=True):
     r = rng.random()
     if r < 0.55:
         return rng.choice(FLOATS)
     if r < 0.7 and allow_neg:
         return rng.choice(NEGFLOATS)
+    if r < 0.78:
+        return f32_widened(struct.unpack('<f', struct.pack('<I', rng.getrandbits(31) % 0x7F800000))[0])     # a random finite non-negative f32, widened
     while True:
         b = rng.getrandbits(64)
         if not allow_neg:
